@@ -1,8 +1,9 @@
 import SamVerif.Props.C12
 import SamVerif.Props.C12b
-import SamVerif.Props.C12c
+import SamVerif.Props.C12d
+import SamVerif.Props.C12e
 /-! Axiom audit of every C12 property theorem (parsed by vlib/common.py). -/
-open SamVerif.ErrorSet SamVerif.Layout SamVerif.MirRename
+open SamVerif.ErrorSet SamVerif.Layout SamVerif.MirFull
 #print axioms errorset_merge_ac
 #print axioms errorset_merge_assoc
 #print axioms errorset_extensional
@@ -10,6 +11,9 @@ open SamVerif.ErrorSet SamVerif.Layout SamVerif.MirRename
 #print axioms sorted_first_perm_invariant
 #print axioms min_perm_invariant
 #print axioms unsorted_first_counterexample
+#print axioms sorted_enumeration_perm_invariant
+#print axioms sorted_numbering_perm_invariant
+#print axioms diagnostics_hash_seed_independent
 #print axioms diagnostics_schedule_independent
 #print axioms diagnostics_report_order_independent
 #print axioms diagnostics_depend_on_ids_counterexample
@@ -18,7 +22,10 @@ open SamVerif.ErrorSet SamVerif.Layout SamVerif.MirRename
 #print axioms ctx_layout_perm_invariant
 #print axioms numbering_is_renaming
 #print axioms layout_order_independent_counterexample
+#print axioms layout_sorted_roots_perm_invariant
 #print axioms layout_loop_partial
+#print axioms demand_inv
+#print axioms layout_acyclic_order_independent
 #print axioms layout_loop_counterexample
 #print axioms exec_ren
-#print axioms mir_rename_invariant
+#print axioms mir_rename_invariant_full
